@@ -384,6 +384,33 @@ func (ex *Exec) dispatch(v ssa.Value, cc *ssa.CallCommon, instr ssa.Instruction,
 		}
 		return
 	}
+	// a library precondition stated in the contract file (e.g. reflect.SliceOf's non-nil argument)
+	// is an obligation at every call site; the call itself is still modelled as a library call
+	if fc := vc.ctx.cf.Funcs[callee.String()]; fc != nil {
+		vars := map[string]TV{}
+		for i, p := range callee.Params {
+			if i < len(args) {
+				vars[p.Name()] = args[i]
+			}
+		}
+		envPre := &SpecEnv{vc: vc, vars: vars, heap: ex.cur.heap, old: ex.cur.heap}
+		sn := ""
+		if ex.pass == 2 {
+			sn = vc.snippetAt(instr.Pos(), isCallExpr)
+		}
+		for _, c := range fc.clauses("requires") {
+			if !hasProp(c, ex.prop) {
+				continue
+			}
+			t, err := envPre.Bool(c.Expr)
+			if err != nil {
+				vc.ctx.contractError(fc, c, err)
+				continue
+			}
+			ex.oblig("pre@call", c.Label, sn, instr.Pos(), fmt.Sprintf("(=> %s %s)", ex.cur.guard, t), []string{ex.prop})
+			vc.assume(fmt.Sprintf("(=> %s %s)", ex.cur.guard, t))
+		}
+	}
 	ex.external(v, callee, cc, args)
 }
 
